@@ -10,9 +10,14 @@ nested expressions:
     `verif_result != model_result`; the answer must be `unsat` (timeout 20 s per case).
 Fresh constants (`prefix!N`) are identified by order of creation: on both sides they are renamed
 to `prefix!<rank of N>`.
-Expressions that contain Exp are NOT solved (z3 does not return on integer power): for them the
-two texts are parsed, `let`s expanded, literals normalised (#x.., #b.., (_ bvN w), concat of
-literals) and the trees compared structurally.
+Exp is solved like every other symbol: with a literal exponent that fits 64 bits the
+implementation builds square-and-multiply products (cases: exponents 0, 1, 2, 3, 255, 256,
+0x1001, 4095, a pc, x**0 as an exponent), otherwise a fresh constant `exp!N` (cases: symbolic exponent,
+compound constant expression, constant 2^64).  The model's terms are trees (z3 shares the
+repeated squares), so the model's text for the exponent e has about 2e leaves: exponents are
+kept <= 4097 here (65535 works but Coq needs ~80 s to print the 1.3 MB; 2^64-1 cannot be
+printed at all; the theorems cover every e < 2^64).
+Should an integer power `^` reappear in the implementation's text, the case is reported.
 This validates the hand-written model against the code; it is not one of the theorems.
 
     run_ops(run) -> (disagreements, details)        python3 checks/c05ops.py [--tier thorough]
@@ -99,7 +104,25 @@ def has_exp(e):
     return e[0] == "Exp" or (e[0] in SYMS and any(has_exp(a) for a in e[1]))
 
 
-def rand_expr(rng, depth, allow_exp=False):
+def rand_exponent(rng, depth):
+    """second child of a random Exp: small literals (the model's term has ~2e leaves), a constant
+    that does not fit 64 bits, or an arbitrary (non-literal) expression"""
+    k = rng.random()
+    if k < 0.45:
+        return const(rng.choice([0, 1, 2, 3, 5, 8, 31, 64, 100, 255, 256, 300]))
+    if k < 0.55:
+        return pc(rng.randrange(0, 300))
+    if k < 0.65:
+        return const(rng.choice([1 << 64, W - 1, 1 << 255]))
+    if k < 0.75:
+        return node("Exp", rand_expr(rng, 0), const(0))
+    e = rand_expr(rng, max(depth, 1))
+    while e[0] in ("c", "pc"):
+        e = rand_expr(rng, max(depth, 1))
+    return e
+
+
+def rand_expr(rng, depth, allow_exp=True):
     r = rng.random()
     if depth == 0 or r < 0.25:
         k = rng.random()
@@ -114,8 +137,10 @@ def rand_expr(rng, depth, allow_exp=False):
         return node(rng.choice(names))
     names = [n for n, a in SYMS.items() if a > 0 and (allow_exp or n != "Exp")]
     if rng.random() < 0.7:
-        names = [n for n in names if n in PURE or n in ("SLoad", "CallDataLoad", "Keccak256")]
+        names = [n for n in names if n in PURE or n in ("SLoad", "CallDataLoad", "Keccak256", "Exp")]
     n = rng.choice(names)
+    if n == "Exp":
+        return node(n, rand_expr(rng, depth - 1, allow_exp), rand_exponent(rng, depth - 1))
     return node(n, *[rand_expr(rng, depth - 1, allow_exp) for _ in range(SYMS[n])])
 
 
@@ -150,16 +175,30 @@ def build_cases(rng, tier):
         node("Sub", node("CallDataLoad", node("Add", a, const(4))), node("BlockHash", node("Number"))),
         node("IsZero", node("Eq", node("Shr", const(224), node("CallDataLoad", const(0))), const(0x23b872dd))),
         node("Lt", node("Create", a, node("Balance", b), node("ExtCodeSize", c)), node("ReturnDataSize")),
+        # Exp, literal exponent: products; 0 gives the literal 1
+        node("Exp", a, const(0)), node("Exp", a, const(1)), node("Exp", a, const(2)), node("Exp", a, const(3)),
+        node("Exp", a, const(255)), node("Exp", a, const(256)), node("Exp", a, const(0x1001)), node("Exp", a, const(4095)),
+        node("Exp", const(0), const(0)), node("Exp", const(2), const(255)), node("Exp", a, pc(5)),
+        node("Exp", node("Add", a, const(2)), const(6)),
+        node("Exp", node("SLoad", a), const(5)),
+        node("Exp", a, node("Exp", b, const(0))),                 # exponent x**0 is the literal 1
+        node("Add", node("Exp", a, const(10)), node("Exp", b, a)),
+        # Exp, any other exponent: a fresh constant, created after those of the children
+        node("Exp", a, b),
+        node("Exp", a, node("Add", const(1), const(2))),          # compound constant: not a literal
+        node("Exp", a, const(1 << 64)),                           # does not fit 64 bits
+        node("Exp", a, const(W - 1)),
         node("Exp", node("Add", a, const(2)), node("SLoad", b)),
-        node("Exp", const(0), const(0)),
+        node("Add", node("Exp", node("SLoad", a), node("MLoad", b)), node("Gas")),
         node("Add", node("Exp", a, b), node("Exp", b, a)),
+        node("Exp", a, node("Exp", b, const(1))),                 # exponent x**1 is a product, not a literal
         node("Xor", node("Or", a, node("And", b, c)), node("Gt", a, node("SGt", b, node("SLt", c, a)))),
         node("DelegateCall", node("Gas"), node("Address"), a, b, c, node("Caller")),
     ]
     cases += [("nested", e) for e in fixed]
     n_rand = 120 if tier == "thorough" else 30
     for i in range(n_rand):
-        cases.append(("random", rand_expr(rng, rng.choice([1, 2, 2, 3]), allow_exp=(i % 10 == 0))))
+        cases.append(("random", rand_expr(rng, rng.choice([1, 2, 2, 3]))))
     return cases
 
 
@@ -266,7 +305,7 @@ def rust_parts(text):
 
 
 def make_script(rust_text, model_term):
-    declared, _ = rust_parts(rust_text)
+    declared = set(re.findall(r"\(declare-fun\s+(\S+)", rust_text))
     consts, funs = set(), set()
     symbols_of(parse_sexprs(model_term)[0], consts, funs)
     extra = []
@@ -362,6 +401,8 @@ CONTROLS = [
     (node("SLt", var(1), var(2)), node("Lt", var(1), var(2))),
     (node("Shl", var(1), var(2)), node("Shl", var(2), var(1))),
     (node("Add", node("SLoad", var(1)), node("MLoad", var(2))), node("Add", node("MLoad", var(2)), node("SLoad", var(1)))),
+    (node("Exp", var(1), const(1)), node("Exp", var(1), const(2))),
+    (node("Exp", var(1), const(5)), node("Exp", var(1), var(2))),
 ]
 
 
@@ -399,12 +440,8 @@ def run_ops(run):
         model_term = rename_fresh(b[3:])
         rec["impl_term"] = rust_text[-400:]
         rec["model_term"] = model_term[:400]
-        if "^" in rust_text or "^" in model_term or has_exp(e):
-            _, rt = rust_parts(rust_text)
-            mt = expand_lets(parse_sexprs(model_term)[0], {})
-            same = rt is not None and normalise(rt) == normalise(mt)
-            rec.update(verdict="unsat" if same else "sat", method="structural",
-                       detail="" if same else "terms differ structurally (Exp: not solved)")
+        if "^" in rust_text or "^" in model_term:
+            rec.update(verdict="error", detail="integer power in the term: z3 does not decide it (not solved)")
             continue
         rec["method"] = "z3"
         scripts.append(make_script(rust_text, model_term))
@@ -426,7 +463,7 @@ def run_ops(run):
         by_cat[rec["cat"]] = by_cat.get(rec["cat"], 0) + 1
     details = dict(cases=len(records), by_category=by_cat,
                    solved_by_z3=sum(1 for r in records if r.get("method") == "z3"),
-                   structural=sum(1 for r in records if r.get("method") == "structural"),
+                   exp_cases=sum(1 for r, e in zip(records, exprs) if has_exp(e)),
                    symbols=len(SYMS), slowest=sorted(((r["seconds"], r["expr"]) for r in records), reverse=True)[:3],
                    wall_s=round(time.time() - t0, 1), harness_build_s=round(dt, 1), records=records)
     return dis, details
